@@ -11,17 +11,22 @@ def main(tier):
     rep.floor("PURE.roots", len(roots), 12, "query root functions")
     E, R, S, rc = pure.run(P, rep, roots)
     pure.stream_io(P, rep, R)
+    pure.world_fields_initialised(P, rep)
     rep.floor("PURE.models", sum(1 for k in R if k in P.funcs and "Models::" in P.funcs[k].qn and P.funcs[k].name.startswith("get_")), 57,
               "model get_* functions reached from the roots")
-    tables, outv, counter = layout.width_tables(P, rep)
-    layout.fill_loop(P, rep, outv)
-    layout.feature_slots(P, rep, tables["properties_output_size"][2])
     F3 = P.func("WorldBuilder::World::properties", ptypes=["array<double, 3>"])
+    F2 = P.func("WorldBuilder::World::properties", ptypes=["array<double, 2>"])
     funcs = [(F3, F3.params[2])] + [(F, F.params[3]) for F in layout.feature_properties(P)]
-    layout.xdep(P, rep, funcs)
-    layout.carried(P, rep, funcs[1:])   # World::properties' own fill loop appends by design: LAYOUT.L2 decides it
-    fwd.convenience_members(P, rep)
-    layout.wrapper2d(P, rep, counter)
+    rep.attempt(layout.no_early_exit, P, rep, funcs + [(F2, F2.params[2])])
+    wt = rep.attempt(layout.width_tables, P, rep)
+    if wt is not None:
+        tables, outv, counter = wt
+        rep.attempt(layout.fill_loop, P, rep, outv)
+        rep.attempt(layout.feature_slots, P, rep, tables["properties_output_size"][2])
+        rep.attempt(layout.wrapper2d, P, rep, counter)
+    rep.attempt(layout.xdep, P, rep, funcs)
+    rep.attempt(layout.carried, P, rep, funcs[1:])   # World::properties' own fill loop appends by design: LAYOUT.L2 decides it
+    rep.attempt(fwd.convenience_members, P, rep)
     rep.explanation = ("Effect analysis (no state outlives a query), symbolic agreement of the three width tables and of "
                        "the slot bookkeeping, confinement of every feature's accesses to its own block, and absence of "
                        "any dependence on the request list as a whole.")
